@@ -22,8 +22,11 @@ CHECK = {
            'formatting is executed by the real print_to_with and compared byte for byte with snprintf of the same specification and the '
            'corresponding C value (Int narrowed as the modifier prescribes, Float as double, String characters, object pointer); the '
            'returned position must be start + characters written; the String sink must hold prefix + text; both sinks must agree. '
-           '%$ is compared with show_to of the same object, and for 26 Array/List/Tuple/Table/Tree shapes the bracketed body must be '
-           'the ", "-join of the elements\' own show texts in iteration order. Every specification in every context is also run with '
+           '%$ is compared with show_to of the same object, and for 158 Array/List/Tuple/Table/Tree shapes (26 hand-written incl. empty/one/many; for each of Array, List, Tuple, Table keys, Table values, Tree keys, Tree values '
+           'one shape per value and one with all values of the element grids Int {0,-1,2^31-1,2^31,2^32+5,-2^31-1,INT64_MAX,INT64_MIN}, Float {0.5,-0.0,1e300,123456.789}, '
+           'String {empty, quote/backslash/newline/percent, 40 chars}; 6 containers of containers) the whole show text must be own prefix + '
+           'the ", "-join of the elements\' own show texts in iteration order + own suffix, where an Int/Float/String element\'s text is show_to of a stand-alone object '
+           'of the same value and a nested container is expected element by element; show_to itself is compared across both sinks and starts {0,5,7,3}. Every specification in every context is also run with '
            'every too-small number of arguments and must raise FormatError. '
            'Length ladder: for every N in 1..n and the neighbours (-2..+2) of each larger power of two, one chunk (a single format_to call inside print_to) '
            'of exactly N output characters is produced in 11 ways (%Nd, %-Ns|%i, %.(N-2)f, %.Nd, N literal characters alone and before %d, %s and %$ of an '
@@ -36,12 +39,12 @@ CHECK = {
     'quick': ('flags: all defined subsets; width {none,5}; precision {none,.3}; all length modifiers; Int values {0,-1,42,128,-129,32768,INT_MAX,INT_MIN} '
               '(+ {2^32, INT64_MAX, INT64_MIN} for l ll j z t); 11 Float values incl. +-0, +inf, denormal, 1e300; 6 Strings incl. empty and 40 chars; '
               '6 chars; 6 objects for %p/%$ (heap String, Type, NULL, Ref, Box, Range); 8 contexts x 3 starts x 2 sinks (File over open_memstream); '
-              '26 container shapes; too-few-arguments for every specification x context x smaller argument count x sink; '
+              '158 container shapes (element value grids incl. values beyond int32, nested one level); too-few-arguments for every specification x context x smaller argument count x sink; '
               'ASan+UBSan and a tmpfile-backed File over the same specifications with the level-0 values and starts {0,len}; '
               'length ladder N = 1..300 and 510..514, 1022..1026, 2046..2050, 4094..4098 (gcc and ASan+UBSan builds)'),
     'thorough': ('flags: all defined subsets; width {none,1,5,12}; precision {none,.0,.3,.10}; all length modifiers; 14 Int values within int '
                  '(+5 beyond int for l ll j z t); 15 Float values incl. +-0, +-inf, nan, denormal, 1e300, 0.1, 123456.789, rounding ties; 6 Strings; '
-                 '8 chars; 6 objects for %p/%$; 8 contexts x 3 starts x 2 sinks; 26 container shapes; too-few-arguments as in quick over the full '
+                 '8 chars; 6 objects for %p/%$; 8 contexts x 3 starts x 2 sinks; 158 container shapes; too-few-arguments as in quick over the full '
                  'specification set; the whole grid is run three times: gcc build with File over open_memstream, clang ASan+UBSan build, '
                  'gcc build with File over tmpfile(); length ladder N = 1..1100 and the neighbours of 2048, 4096, 8192 (gcc and ASan+UBSan builds)'),
   },
